@@ -529,7 +529,13 @@ impl Scanner {
                 "$" => {
                     let s = self.advance();
                     if s != "{" {
-                        return self.error_token("Expected '{' in string interpolation.");
+                        // A line end consumed in place of the brace still ends a line.
+                        let ends_line = s == "\n";
+                        let token = self.error_token("Expected '{' in string interpolation.");
+                        if ends_line {
+                            self.line += 1;
+                        }
+                        return token;
                     }
                     if self.parantheses.len() >= common::INTERPOLATION_DEPTH_MAX {
                         return self.error_token("Max interpolation depth exceeded.");
@@ -583,7 +589,13 @@ impl Scanner {
                         "\\" => buffer.push_str("\\"),
                         "0" => buffer.push_str("\0"),
                         _ => {
-                            return self.error_token("Invalid escape sequence.");
+                            // Likewise for a line end consumed as the escaped character.
+                            let ends_line = s == "\n";
+                            let token = self.error_token("Invalid escape sequence.");
+                            if ends_line {
+                                self.line += 1;
+                            }
+                            return token;
                         }
                     }
                 }
